@@ -196,7 +196,7 @@ def w_layout(case):
     try:
         kind, total, tracks, spt = case['kind'], case['total'], case['tracks'], case['spt']
         d = run.fresh_dir('c14')
-        sig = 'C14:%s' % kind
+        sig = 'C14:%s%s' % (kind, case.get('sig_extra', ''))
         if kind in ('acorn', 'watford'):
             files1 = case['files']              # [(start, length)] catalogue order (descending start)
             files2 = case.get('files2', [])
@@ -311,6 +311,12 @@ def fam_opus(tier):
     yield {'kind': 'opus', 'total': 0, 'tracks': 40, 'spt': 18, 'vols': {'A': (1, [(20, 300), (0, 256)])}, 'voltotal': {'A': 702}}
     yield {'kind': 'opus', 'total': 0, 'tracks': 40, 'spt': 18, 'vols': {'A': (1, [(3, 300)]), 'B': (4, []), 'C': (10, [(100, 1), (0, 5000)])},
            'voltotal': {}}
+    # discs whose first volume slot is unused (sectors 0/1 belong to nobody): the tool mounts them, so the surface-wide
+    # commands must account for every sector including sector 0
+    yield {'kind': 'opus', 'total': 0, 'tracks': 40, 'spt': 18, 'vols': {'B': (1, [(3, 300)]), 'D': (5, [(0, 256)])}, 'voltotal': {}, 'sig_extra': ':no-volume-A'}
+    yield {'kind': 'opus', 'total': 0, 'tracks': 40, 'spt': 18, 'vols': {'H': (2, [(10, 700)])}, 'voltotal': {}, 'sig_extra': ':no-volume-A'}
+    yield {'kind': 'opus', 'total': 0, 'tracks': 40, 'spt': 18, 'vols': {'B': (1, [])}, 'voltotal': {}, 'sig_extra': ':no-volume-A'}
+    yield {'kind': 'opus', 'total': 0, 'tracks': 40, 'spt': 18, 'vols': {'A': (1, [(3, 300)]), 'C': (3, [(0, 256)]), 'H': (9, [])}, 'voltotal': {}, 'sig_extra': ':gaps-in-volume-table'}
 
 
 def fam_boundary(tier):
